@@ -37,7 +37,7 @@ M = [
     ("c01_components_outside_graph_run", DR, "if (component not in broker and component in components and\n               component in DELEGATES and",
      "if (component not in broker and\n               component in DELEGATES and"),
     # ---- C02 -----------------------------------------------------------------
-    ("c02_group_needs_all_members", DR, "if not set(d).intersection(broker)]", "if not set(d).issubset(set(broker.keys()))]"),
+    ("c02_group_needs_all_members", DR, "if not any(x in broker for x in d)]", "if not all(x in broker for x in d)]"),
     ("c02_optional_bound_before_required", DR, "        self.deps.extend(self.optional)\n\n        self.dependencies", "        self.deps = list(self.optional) + self.deps\n\n        self.dependencies"),
     ("c02_rule_skip_drops_groups", PL, "return _make_skip(dr.get_name(self.component), missing)", "return _make_skip(dr.get_name(self.component), (missing[0], []))"),
     ("c02_disabled_components_run", DR, "               component in DELEGATES and\n               is_enabled(component)):", "               component in DELEGATES):"),
@@ -59,6 +59,7 @@ M = [
     ("c04_run_all_drops_last_future", DR, "        return [f.result() for f in futures]", "        return [f.result() for f in futures[:-1]]"),
     ("c04_incremental_uses_broker_copies", DR, "        yield graph, broker or Broker()", "        yield graph, Broker(broker) if broker else Broker()"),
     ("c04_f8_reverted", PL, "use_alarm = HostContext in broker and isinstance(threading.current_thread(), threading._MainThread)", "use_alarm = HostContext in broker"),
+    ("c04_f18_reverted", DR, "missing_at_least_one = [d for d in self.at_least_one if not any(x in broker for x in d)]", "missing_at_least_one = [d for d in self.at_least_one if not set(d).intersection(broker)]"),
     ("c04_subgraph_keys_lost", DR, "        yield dict((s, get_dependencies(s)) for s in seen)", "        yield dict((s, get_dependencies(s)) for s in seen if get_dependencies(s) or get_dependents(s))"),
     # ---- C05 -----------------------------------------------------------------
     ("c02_point_prefers_first_implementation", SF, "for c in reversed(dr.get_delegate(self).deps):", "for c in dr.get_delegate(self).deps:"),
